@@ -83,46 +83,25 @@ Definition top_eqb (a b : top) : bool :=
   | _, _ => false
   end.
 
-Definition aop_eqb (a b : aop) : bool :=
-  match a, b with
-  | AAcq, AAcq => true
-  | ARel e, ARel e' => opt_eqb exn_eqb e e'
-  | ATab o, ATab o' => top_eqb o o'
-  | AGet m f, AGet m' f' => name_eqb m m' && Bool.eqb f f'
-  | ANext m lv py c lev s, ANext m' lv' py' c' lev' s' =>
-      name_eqb m m' && Z.eqb lv lv' && name_eqb py py' && Nat.eqb c c' && Z.eqb lev lev' && opt_name_eqb s s'
-  | AEnd e, AEnd e' => Bool.eqb e e'
-  | _, _ => false
-  end.
+(* what was observed on the implementation, one item per atomic operation, in the order they happened *)
+Inductive oev :=
+| OAcq | ORel (e : option exn) | OTab (o : top)
+| OGet (m : name) (found : bool)          (* handle: self.subscriptions[modname] succeeded / raised KeyError *)
+| OSkip                                   (* inserted by the encoder after a failed lookup: handle returned *)
+| OSnap (m : name) (content : subs)       (* handle: items() of the module's dict was taken; its content at that moment *)
+| OSend (c : conn) (m : name) (nm : name) (* a log message was handed to connection c *)
+| OBad.                                   (* anything else *)
+
+Definition subs_eqb (a b : subs) : bool := list_eqb (pair_eqb Nat.eqb Z.eqb) a b.
+Definition table_eqb (a b : table) : bool := list_eqb (pair_eqb name_eqb subs_eqb) a b.
+Definition delivery_eqb (a : delivery) (c : conn) (m nm : name) : bool :=
+  Nat.eqb (fst (fst a)) c && name_eqb (snd (fst a)) m && name_eqb (snd a) nm.
 
 (* a thread of a concurrent case: a connection thread (its operations, and the exception class every operation ended
-   with on the implementation), or a module thread emitting records (m, lv, python level name) together with the reader
-   steps it was observed to make (what a dict iterator yields while the dict is modified is CPython data) *)
+   with on the implementation), or a module thread emitting records (m, lv, python level name) *)
 Inductive cthread :=
 | TConn (ops : list op) (excs : list (option oexn))
-| TEmit (recs : list (name * Z * name)) (prog : list aop).
-
-(* the reader steps of one record: ANext ... ANext AEnd, all for this record *)
-Fixpoint emit_nexts (m : name) (lv : Z) (py : name) (p : list aop) : option (list aop) :=
-  match p with
-  | ANext m' lv' py' _ _ _ :: r =>
-      if name_eqb m' m && Z.eqb lv' lv && name_eqb py' py then emit_nexts m lv py r else None
-  | AEnd _ :: r => Some r
-  | _ => None
-  end.
-
-(* handle per record: the lookup fails and nothing else happens, or it succeeds and the loop runs *)
-Fixpoint emit_prog_ok (recs : list (name * Z * name)) (p : list aop) : bool :=
-  match recs with
-  | [] => match p with [] => true | _ => false end
-  | (m, lv, py) :: rr =>
-      match p with
-      | AGet m' false :: r => name_eqb m' m && emit_prog_ok rr r
-      | AGet m' true :: r =>
-          name_eqb m' m && match emit_nexts m lv py r with Some r' => emit_prog_ok rr r' | None => false end
-      | _ => false
-      end
-  end.
+| TEmit (recs : list (name * Z * name)).
 
 Definition op_exn (mods : list name) (o : op) : option exn :=
   match o with
@@ -138,32 +117,51 @@ Fixpoint excs_ok (mods : list name) (ops : list op) (xs : list (option oexn)) : 
   end.
 
 Definition thread_prog (mods : list name) (th : cthread) : list aop :=
-  match th with TConn ops _ => conn_prog mods ops | TEmit _ p => p end.
+  match th with TConn ops _ => conn_prog mods ops | TEmit recs => emit_prog recs end.
 Definition thread_ok (mods : list name) (th : cthread) : bool :=
-  match th with TConn ops xs => excs_ok mods ops xs | TEmit recs p => emit_prog_ok recs p end.
+  match th with TConn ops xs => excs_ok mods ops xs | TEmit _ => true end.
 
-(* one observed atomic operation (thread, operation): it must be the next step of that thread in the model, enabled, and
-   the model executes it *)
-Definition cstep_obs (sb : cstate * bool) (ev : nat * aop) : cstate * bool :=
-  let '(s, ok) := sb in
-  match nth_error (c_progs s) (fst ev) with
-  | Some (a :: _) => (cstep s (fst ev), ok && aop_eqb a (snd ev) && enabled (c_lock s) a)
-  | _ => (s, false)
+(* does the observed operation agree with the step the model is going to make for this thread *)
+Definition step_matches (s : cstate) (i : nat) (ev : oev) : bool :=
+  let lo := nth i (c_loc s) loc0 in
+  match l_pend lo with
+  | d :: _ => match ev with OSend c m nm => delivery_eqb d c m nm | _ => false end
+  | [] =>
+      match nth_error (c_progs s) i with
+      | Some (a :: _) =>
+          enabled (c_lock s) a &&
+          match a, ev with
+          | AAcq, OAcq => true
+          | ARel e, ORel e' => opt_eqb exn_eqb e e'
+          | ATab o, OTab o' => top_eqb o o'
+          | AGet m, OGet m' found => name_eqb m m' && Bool.eqb found (has_mod m (c_table s))
+          | ASnap _ _, OSkip => match l_get lo with Some (_, false, _) => true | _ => false end
+          | ASnap _ _, OSnap m content =>
+              match l_get lo with
+              | Some (m', true, _) => name_eqb m m' && subs_eqb (match get_mod m (c_table s) with Some l => l | None => [] end) content
+              | _ => false
+              end
+          | _, _ => false
+          end
+      | _ => false
+      end
   end.
 
-Definition subs_eqb (a b : subs) : bool := list_eqb (pair_eqb Nat.eqb Z.eqb) a b.
-Definition table_eqb (a b : table) : bool := list_eqb (pair_eqb name_eqb subs_eqb) a b.
+(* one observed atomic operation (thread, operation): it must be the next step of that thread in the model, which the model
+   then executes *)
+Definition cstep_obs (sb : cstate * bool) (ev : nat * oev) : cstate * bool :=
+  let '(s, ok) := sb in (cstep s (fst ev), ok && step_matches s (fst ev) (snd ev)).
 
-Definition conc_final (mods : list name) (t0 : table) (threads : list cthread) (events : list (nat * aop)) : cstate * bool :=
+Definition conc_final (mods : list name) (t0 : table) (threads : list cthread) (events : list (nat * oev)) : cstate * bool :=
   fold_left cstep_obs events (init (map (thread_prog mods) threads) t0, true).
 
 Definition conc_check (mods : list name) (pre : list op) (pre_obs : list robs) (threads : list cthread)
-    (events : list (nat * aop)) (final : table) (sweep : list op) (sweep_obs : list robs) : bool :=
+    (events : list (nat * oev)) (final : table) (sweep : list op) (sweep_obs : list robs) : bool :=
   let t0 := run mods pre in
   let '(st, ok) := conc_final mods t0 threads events in
   route_check mods [] pre pre_obs
   && forallb (thread_ok mods) threads
-  && ok && c_ok st && all_done st
+  && ok && all_done st
   && match c_lock st with None => true | Some _ => false end
   && table_eqb (c_table st) final
   && route_check mods (c_table st) sweep sweep_obs.
@@ -172,7 +170,7 @@ Inductive case :=
 | CRoute (levels : list (name * Z)) (mods : list name) (ops : list op) (obs : list robs)
 | CRot (prefix : name) (max_days : nat) (init : dir) (date0 : name) (listing0 : list entry) (steps : list rstep)
 | CConc (levels : list (name * Z)) (mods : list name) (pre : list op) (pre_obs : list robs) (threads : list cthread)
-        (events : list (nat * aop)) (final : table) (sweep : list op) (sweep_obs : list robs).
+        (events : list (nat * oev)) (final : table) (sweep : list op) (sweep_obs : list robs).
 
 Definition check_case (c : case) : bool :=
   match c with
@@ -200,7 +198,7 @@ Fixpoint rot_trace (prefix : name) (n : nat) (d : dir) (steps : list rstep) : li
 Inductive model_out :=
 | MRoute (x : list (list delivery * option exn))
 | MRot (l0 : list entry) (x : list (bool * list entry))
-| MConc (steps_followed : bool) (readers_ok : bool) (remaining : list (list aop)) (t : table)
+| MConc (steps_followed : bool) (remaining : list (list aop)) (unsent : list (list delivery)) (t : table)
         (x : list (list delivery * option exn)).
 Definition model_result (c : case) : model_out :=
   match c with
@@ -209,5 +207,5 @@ Definition model_result (c : case) : model_out :=
       let d0 := open_file init (log_name prefix date0) in MRot (sort d0) (rot_trace prefix n d0 steps)
   | CConc _ mods pre _ threads events _ sweep _ =>
       let '(st, ok) := conc_final mods (run mods pre) threads events in
-      MConc ok (c_ok st) (c_progs st) (c_table st) (route_trace mods (c_table st) sweep)
+      MConc ok (c_progs st) (map l_pend (c_loc st)) (c_table st) (route_trace mods (c_table st) sweep)
   end.
